@@ -254,7 +254,7 @@ Lookups(s, q) ==
                                                        At(s.edges, f) = <<At(s.edges, e)[2], At(s.edges, e)[1]>>)}}
       PAR(a, b)  == <<a, b>> \in PARS \/ <<b, a>> \in PARS
       (* consecutive vertex triples of every halfface with at least two halfedges, and the inverse map *)
-      TRI   == [hf \in LHF |-> IF Len(HES[hf]) < 2 THEN {} ELSE
+      TRI   == [hf \in LHF |-> IF HES[hf] = <<>> THEN {} ELSE      \* cyclically: a face of valence 1 or 2 wraps around
                   LET L == VTS[hf] n == Len(L) IN {<<L[i], L[(i % n) + 1], L[((i + 1) % n) + 1]>> : i \in 1 .. n}]
       TRIS  == UNION {TRI[hf] : hf \in LHF}
       TMAP  == [tr \in TRIS |-> {hf \in LHF : tr \in TRI[hf]}]
